@@ -5,7 +5,7 @@ CONSTANTS
   Sizes = {1, 2}
   FileSizes = {1, 2, 4}
   TotalSizes = {1, 4, 8}
-  MaxWrites = 5
+  MaxWrites = 4
   MaxTs = 2
   MaxDeletes = 2
   MaxReopens = 0
